@@ -82,11 +82,9 @@ Theorem C04_gate_sets :
 Proof. split; [exact gates_forwarding | exact scaled_noise_gates]. Qed.
 Print Assumptions C04_gate_sets.
 
-(* Not proved here (kept visible): the shot average of G rho G^dagger for idle relaxation is the T1/T2 channel.
-   It needs the Gaussian moments E[exp(2 i eps W)] = exp(-2 eps^2 Delta), E[I] = 0, E[I^2] = 1 - exp(-e1^2 Delta);
-   the oracle checks it by exact Gaussian integration of the sampled matrix entries. *)
-Definition C04_relaxation_channel_full : Prop :=
-  forall (Ex : (R -> R -> C) -> C) (* expectation over (W, I) *), True.
+(* NOT a theorem here: "the shot average of G rho G^dagger for idle relaxation is the T1/T2 channel". It needs the Gaussian
+   moments E[exp(2 i eps W)] = exp(-2 eps^2 Delta), E[I] = 0, E[I^2] = 1 - exp(-e1^2 Delta); checks/c04.py checks the
+   matrix entries, the two sampler standard deviations and the resulting decay rates exp(-Dt/T1), exp(-Dt/T2). *)
 
 Example C04_example : v_ed <> v_e1 /\ v_e1 <> v_ep /\ List.length sq_blocks = 5%nat /\ List.length cr_blocks = 10%nat.
 Proof. vm_compute. repeat split; discriminate. Qed.
